@@ -5,3 +5,7 @@ pub mod string;
 pub mod grammar;
 pub mod schema_rules;
 pub mod exec_rules;
+pub mod coerce;
+pub mod depth;
+pub mod linecol;
+pub mod typerel;
